@@ -13,21 +13,42 @@ from terms import TermBuilder, render
 RET = {"k": "copy", "l": 0, "p": []}
 
 
-def _closure_ret(f, t):
-    """(return term, name of the closure's value parameter) of a closure aggregate term."""
+def _closure_ret(f, t, item=None):
+    """(return term, name of the closure's value parameter) of a closure aggregate term.  The captured values are the ones the
+    aggregate term shows (the view of the body the closure is built in - which, for a closure of a spliced-in helper, is the
+    caller and not the closure's lexical parent); `item`, when given, is what the closure's value parameter is bound to."""
     if t[0] != "agg" or len(t) < 4 or not t[3]:
         return None, None
     cb = f.bodies.get(t[3])
     if cb is None:
         return None, None
     tb = TermBuilder(cb, closure_env=True)
+    env = dict(tb.env or {})
+    for i, ct in enumerate(t[2]):
+        env[i] = ct
+    if item is not None:
+        env["item"] = item
+        env["item_n"] = 2
+    tb.env = env
     return normalize(f, tb.term(RET), 1), (cb.local_name(2) or "_2")
 
 
+def _some(recv):
+    from terms import simplify_proj
+    return simplify_proj(recv, ("as Some", ".0"))
+
+
 def _is_param(t, pname):
+    """Is `t` the closure's value parameter?  `pname` is its name or (name, receiver term): with the closure environment
+    resolved, the parameter of an Option adaptor's closure reads as the receiver's `Some` payload."""
+    recv = None
+    if isinstance(pname, tuple):
+        pname, recv = pname
     while t[0] == "proj" and not [p for p in t[2] if p != "*"]:
         t = t[1]
-    return t[0] == "arg" and t[1] == pname
+    if t[0] == "arg" and t[1] == pname:
+        return True
+    return recv is not None and render(t) in (render(recv) + "<Some>.0", render(("proj", recv, ("as Some", ".0"))))
 
 
 def _min_of(t, pname, dflt_r):
@@ -88,8 +109,34 @@ def MIN(o, v):
     return ("call", "MIN", (o, v))
 
 
-def normalize(f, t, depth=0):
-    """Bottom-up rewrite of the idioms listed in the module docstring."""
+_CTX = {"tb": None}
+
+
+def _len_bases(t, out, depth=0):
+    """collections whose length bounds `t` from above: t = len(X) / min(.., len(X), ..) through casts"""
+    if depth > 8 or not isinstance(t, tuple) or not t:
+        return
+    if t[0] == "cast":
+        _len_bases(t[2], out, depth + 1)
+    elif t[0] == "call" and re.search(r"(Ord::min|cmp::min)$", t[1]):
+        for a in t[2]:
+            _len_bases(a, out, depth + 1)
+    elif t[0] == "call" and re.search(r"::len$", t[1]) and t[2]:
+        out.append(render(t[2][0]))
+    elif t[0] == "un" and t[1] == "PtrMetadata":
+        out.append(render(t[2]))
+
+
+def normalize(f, t, depth=0, tb=None):
+    """Bottom-up rewrite of the idioms listed in the module docstring.  With `tb` (the TermBuilder the term came from) an element
+    read by position inside a counting loop, `xs[i]` with `i` from `0..len(xs)` / `0..min(len(xs), ..)`, is ELEM(xs) as well."""
+    if tb is not None:
+        old = _CTX["tb"]
+        _CTX["tb"] = tb
+        try:
+            return normalize(f, t, depth)
+        finally:
+            _CTX["tb"] = old
     if depth > 40 or not isinstance(t, tuple) or not t:
         return t
     k = t[0]
@@ -100,19 +147,24 @@ def normalize(f, t, depth=0):
         args = tuple(normalize(f, a, depth + 1) for a in t[2])
         t = ("call", t[1], args) + tuple(t[3:])
         d = t[1]
+        if re.search(r"bool>::then$", d) and len(args) == 2:
+            # `cond.then(|| value)`: show the value the closure computes (its captures resolved) instead of the opaque closure
+            ret, _pn = _closure_ret(f, args[1])
+            if ret is not None:
+                return ("call", d, (args[0], ret))
         if d.endswith("Option::<T>::map_or") and len(args) == 3:
-            ret, pn = _closure_ret(f, args[2])
-            if ret is not None and _min_of(ret, pn, render(args[1])):
+            ret, pn = _closure_ret(f, args[2], _some(args[0]))
+            if ret is not None and _min_of(ret, (pn, args[0]), render(args[1])):
                 return MIN(args[0], args[1])
         if d.endswith("Option::<T>::unwrap_or") and len(args) == 2:
             inner = args[0]
             if inner[0] == "call" and inner[1].endswith("Option::<T>::filter") and len(inner[2]) == 2:
-                ret, pn = _closure_ret(f, inner[2][1])
-                if ret is not None and _lt_of(ret, pn, render(args[1])):
+                ret, pn = _closure_ret(f, inner[2][1], _some(inner[2][0]))
+                if ret is not None and _lt_of(ret, (pn, inner[2][0]), render(args[1])):
                     return MIN(inner[2][0], args[1])
             if inner[0] == "call" and inner[1].endswith("Option::<T>::map") and len(inner[2]) == 2:
-                ret, pn = _closure_ret(f, inner[2][1])
-                if ret is not None and _min_of(ret, pn, render(args[1])):
+                ret, pn = _closure_ret(f, inner[2][1], _some(inner[2][0]))
+                if ret is not None and _min_of(ret, (pn, inner[2][0]), render(args[1])):
                     return MIN(inner[2][0], args[1])
         if re.search(r"(Ord::min|cmp::min)$", d) and len(args) == 2:
             for x, y in ((args[0], args[1]), (args[1], args[0])):
@@ -145,6 +197,24 @@ def normalize(f, t, depth=0):
                 path = path[2:]
             e, rest = resolve_item(normalize(f, inner[2][0], depth + 1), path)
             return ("proj", e, tuple(rest)) if rest else e
+        tb_ = _CTX["tb"]
+        idxs = [i for i, p in enumerate(t[2]) if isinstance(p, str) and re.fullmatch(r"\[_\d+\]", p)]
+        if tb_ is not None and len(idxs) == 1:
+            i0 = idxs[0]
+            base = ("proj", t[1], tuple(t[2][:i0])) if i0 else t[1]
+            it = tb_.term({"l": int(t[2][i0][2:-1]), "p": []})
+            # i = next(Range{0, E})<Some>.0 with E bounded by len(base)
+            x = it
+            while x[0] == "proj" and all(p in ("as Some", ".0", "*") for p in x[2]):
+                x = x[1]
+            if x[0] == "call" and x[1] == "std::iter::Iterator::next" and x[2] and x[2][0][0] == "agg" and str(x[2][0][1]).startswith("std::ops::Range") and len(x[2][0][2]) == 2:
+                lo, hi = x[2][0][2]
+                bases = []
+                _len_bases(hi, bases)
+                if render(lo) == "0_usize" and render(base) in bases:
+                    e = ("call", "ELEM", (normalize(f, base, depth + 1),))
+                    rest = tuple(t[2][i0 + 1:])
+                    return ("proj", e, rest) if rest else e
         return ("proj", normalize(f, t[1], depth + 1), t[2])
     if k in ("cast", "un"):
         return (k, t[1], normalize(f, t[2], depth + 1))
